@@ -31,6 +31,7 @@ type ReplayRes struct {
 	Traces  []TraceVal `json:"traces"`
 	Used    int        `json:"used"`
 	Failed  []string   `json:"failed"`
+	Race    bool       `json:"race"`
 }
 
 type Replayer struct {
@@ -133,6 +134,7 @@ func (r *Replayer) Run(reqs []ReplayReq, env ...string) (map[int]ReplayRes, erro
 		cmd.Dir = repoDir
 		cmd.Env = append(append(os.Environ(), "VERIF_TAPES="+in, "VERIF_RESULTS="+out), env...)
 		cout, _ := cmd.CombinedOutput()
+		raced := strings.Contains(string(cout), "DATA RACE")
 		got := 0
 		if rf, err := os.Open(out); err == nil {
 			sc := bufio.NewScanner(rf)
@@ -140,6 +142,7 @@ func (r *Replayer) Run(reqs []ReplayReq, env ...string) (map[int]ReplayRes, erro
 			for sc.Scan() {
 				var res ReplayRes
 				if json.Unmarshal(sc.Bytes(), &res) == nil {
+					res.Race = raced
 					results[res.ID] = res
 					got++
 				}
